@@ -143,14 +143,26 @@ def finishSlashBlock (sc : SlScan) : SlScan := Id.run do
             let bond := sc.xs.any (fun x => x.get "bond" == "1")
             let losses := backers.map (fun b => (b, stakeOf prev b - stakeOf cur b))
             let totalLoss := (losses.map (·.2)).sum
+            -- a delegation is valued at ⌊shares · tokens / validator shares⌋: at a validator whose exchange rate is not one the values
+            -- before and after are cut separately, so the measured loss of a delegation can be one unit off what was taken from it;
+            -- what left the ledger (validator tokens + unbonding balances) is compared exactly
+            let rateOne := fun (sn : Snap) => sn.s.vals.all (fun v => v.tokens * Dec.prec == v.shares)
+            let exact := rateOne prev && rateOne cur
+            let slackAll : Int := if exact then 0 else (m.origins.length : Int) + (d.escrow.length : Int)
+            let ledger := fun (sn : Snap) => (sn.s.vals.map (·.tokens)).sum + (sn.ubd.map (·.2.2)).sum
             if !bond then
-              if totalLoss != d.slash then sc := sfail sc s!"backers of dispute {d.id} lost {totalLoss} in total, slash amount {d.slash} ({losses})"
+              if totalLoss > d.slash + slackAll || totalLoss + slackAll < d.slash then sc := sfail sc s!"backers of dispute {d.id} lost {totalLoss} in total, slash amount {d.slash} ({losses})"
+              -- (in a block in which no other dispute's escrow was taken or given back)
+              let othersQuiet := cur.disputes.all (fun o => o.id == d.id || (match prev.disputes.find? (·.id == o.id) with
+                | some p => p.escTotal == o.escTotal && p.escrow == o.escrow | none => o.escTotal.isNone))
+              if othersQuiet && sc.xs.all (fun x => !x.ok || x.kind == "disp" || x.kind == "addfee") && ledger prev - ledger cur != d.slash then
+                sc := sfail sc s!"funding of dispute {d.id}: validators' tokens and unbonding balances dropped by {ledger prev - ledger cur}, slash amount {d.slash}"
               for (b, loss) in losses do
                 let contrib := ((m.origins.filter (·.1 == b)).map (·.2.2)).sum
                 let n : Int := (m.origins.length : Int)
                 -- |loss·total − contrib·amt| ≤ tolerance·total
                 let dev := loss * total - contrib * d.slash
-                let tol := (((m.origins.filter (·.1 == b)).length : Int)) * total
+                let tol := (((m.origins.filter (·.1 == b)).length : Int)) * (if exact then 1 else 2) * total
                 if dev > tol || dev < -tol then
                   let lastB := (m.origins.getLast?.map (·.1)) == some b
                   if lastB && dev ≤ n * total && dev ≥ -(n * total) then pure ()   -- the last origin absorbs the others' rounding
@@ -171,7 +183,8 @@ def finishSlashBlock (sc : SlScan) : SlScan := Id.run do
               if !bond then
                 for (b, loss) in losses do
                   let recd := ((d.escrow.filter (·.1 == b)).map (·.2.2)).sum
-                  if recd != loss then sc := sfail sc s!"escrow record credits {b} with {recd}, it lost {loss} (dispute {d.id})"
+                  let slackB : Int := if exact then 0 else ((d.escrow.filter (·.1 == b)).length : Int) + ((m.origins.filter (·.1 == b)).length : Int)
+                  if recd > loss + slackB || recd + slackB < loss then sc := sfail sc s!"escrow record credits {b} with {recd}, it lost {loss} (dispute {d.id})"
             | none => sc := sfail sc s!"funded dispute {d.id} has no escrow record"
             -- dispute module received the stake
             -- jail
